@@ -3,7 +3,7 @@ import re
 from .. import lib, scen, runner, declgen, units, strgen
 from . import common
 
-HELP_PROFILE = dict(p_bad_default=0.0, p_required=0.08, p_commands=0.6, max_depth=3, p_desc=0.65, p_default=0.3, p_env=0.25, p_valname=0.3, p_mask=0.25,
+HELP_PROFILE = dict(p_addoption=0.08, p_bad_default=0.0, p_required=0.08, p_commands=0.6, max_depth=3, p_desc=0.65, p_default=0.3, p_env=0.25, p_valname=0.3, p_mask=0.25,
                     p_choice=0.25, p_hidden=0.25, p_cmd_hidden=0.25, p_help=0.7, p_positional=0.45, p_init=0.3, p_group=0.45, p_namespace=0.6,
                     p_alias=0.5, p_mb_short=0.15, p_bad_value=0.0, p_ev_unknown=0.0, p_ev_garbage=0.0, p_ev_cmd=0.45, p_ev_opt=0.3, n_events=(0, 5))
 
@@ -161,7 +161,7 @@ def last_word(rng, sc, g, chain):
 
 
 def make_c18(rng):
-    g = declgen.Gen(rng, dict(types=COMP_TYPES, p_required=0.0, p_commands=0.65, p_desc=0.5, p_hidden=0.2, p_cmd_hidden=0.2, p_help=0.6, p_positional=0.4,
+    g = declgen.Gen(rng, dict(types=COMP_TYPES, p_addoption=0.08, p_required=0.0, p_commands=0.65, p_desc=0.5, p_hidden=0.2, p_cmd_hidden=0.2, p_help=0.6, p_positional=0.4,
                               p_bad_value=0.0, p_ev_garbage=0.0, p_ev_unknown=0.03, n_events=(0, 5), p_mutate_argv=0.02, p_optional=0.15,
                               p_namespace=0.6, p_group=0.4, p_alias=0.4))
     sc = g.gen_scenario()
@@ -203,9 +203,9 @@ def run_c18(rep, tier, rng, replay=None):
 
 # ---------------------------------------------------------------- C19
 def make_c19(rng):
-    g = declgen.Gen(rng, dict(p_dup=0.15, p_bad_tag=0.06, p_long_short=0.05, p_bool_default=0.1, p_group=0.5, p_namespace=0.7, p_commands=0.5,
+    g = declgen.Gen(rng, dict(p_addoption=0.1, p_dup=0.15, p_bad_tag=0.06, p_long_short=0.05, p_bool_default=0.1, p_group=0.5, p_namespace=0.7, p_commands=0.5,
                               p_nsdelim_other=0.3, p_mb_short=0.2, p_choice=0.3, p_default=0.4, p_env=0.3, p_positional=0.4, p_alias=0.5,
-                              p_nsclash=rng.choice([0.0, 0.1, 0.3])))
+                              p_nsclash=rng.choice([0.05, 0.25, 0.5])))
     sc = g.gen_scenario()
     sc["ops"] = [{"op": "inspect"}, {"op": "parse", "args": []}]
     return sc
